@@ -196,6 +196,24 @@ fn typed_constant_cases() -> Vec<Case> {
             out.push(Case { id: format!("SpecConstant:{}:pattern{}", tn, k), insts: vec![ty.clone(), sc], raw: None, version: 0x0001_0400, bound: 30 });
         }
     }
+    // every extension name of the grammar, every capability, imports and memory models in front of one telling constant of
+    // each type; and every header version: how a literal is printed depends on its type declaration alone
+    {
+        let preludes = crate::checks::c10::preludes();
+        for (tn, ty, words) in &types {
+            let l = if *words == 1 { Arg::Lit32(0xFFFF_FFFB) } else { Arg::Lit64(0xFFFF_FFFF_FFFF_FFFB) };
+            let c = Inst::new("Constant", Some(10), Some(20), vec![l]);
+            for (k, pre) in preludes.iter().enumerate() {
+                if pre.name() == "Capability" && k % 3 != 0 && !matches!(*tn, "i8" | "i64" | "f16" | "f64") {
+                    continue;
+                }
+                out.push(Case { id: format!("Constant:{}:after-{}-{}", tn, pre.name(), k), insts: vec![pre.clone(), ty.clone(), c.clone()], raw: None, version: 0x0001_0400, bound: 5000 });
+            }
+            for version in [0u32, 0x0001_0000, 0x0001_0100, 0x0001_0200, 0x0001_0300, 0x0001_0500, 0x0001_0600, 0x0001_0700, 0x0002_0000, 0x00FF_FF00] {
+                out.push(Case { id: format!("Constant:{}:version-{:#x}", tn, version), insts: vec![ty.clone(), c.clone()], raw: None, version, bound: 30 });
+            }
+        }
+    }
     // two constants that carry the SAME result id but have types of different classes (ids defined twice: the loader
     // accepts it): how a literal is printed follows the constant's own result TYPE, nothing else
     {
